@@ -407,3 +407,36 @@ def run_fuzz(exe, pid, runs, seed, jobs=16, max_len=256, dict_path=None, timeout
     sh.nontrivial("fuzz-%s-%d" % (os.path.basename(exe), seed))
     sh.nontrivial("fuzz-%s-jobs" % os.path.basename(exe))
     return sh
+
+
+def run_memcheck(exe_plain, cases, pid, tag="mc", timeout=3000):
+    """valgrind memcheck pass (uninitialised reads, invalid accesses that ASan's red zones miss) over a script on the
+    uninstrumented `plain` build.  Returns a Shard with one violation if memcheck reported anything."""
+    d = scratch_dir(tag)
+    sp, op = os.path.join(d, "script"), os.path.join(d, "out")
+    with open(sp, "w") as f:
+        for cid, cmds in cases:
+            f.write("CASE %s\n" % cid)
+            for c in cmds:
+                f.write(c + "\n")
+            f.write("END\n")
+    sh = Shard()
+    try:
+        r = subprocess.run(["valgrind", "-q", "--error-exitcode=77", "--track-origins=yes", "--num-callers=12", exe_plain, sp, op],
+                           stdout=subprocess.PIPE, stderr=subprocess.STDOUT, text=True, errors="replace", timeout=timeout)
+    except subprocess.TimeoutExpired:
+        sh.notes.append("memcheck watchdog fired (inconclusive)")
+        return sh
+    sh.evaluations = sum(len(c) for _, c in cases)
+    sh.count("memcheck.commands", sh.evaluations)
+    sh.nontrivial("memcheck-%s-%d" % (pid, len(cases)))
+    sh.nontrivial("memcheck-%s" % pid)
+    if r.returncode == 77:
+        import re
+        m = re.search(r"==\d+== ([A-Z][^\n]{10,80})\n==\d+==\s+at 0x[0-9A-F]+: (\w+)", r.stdout)
+        kind = re.sub(r"\W+", "-", m.group(1).lower())[:50] if m else "error"
+        fn = m.group(2) if m else "?"
+        sh.violation("%s/memcheck/%s/%s" % (pid, kind, fn), "valgrind memcheck: " + (m.group(0)[:200] if m else r.stdout[-300:]), {"cmd": "valgrind %s <script>" % exe_plain, "stderr": r.stdout[-3000:]})
+    elif r.returncode != 0:
+        raise Inconclusive("memcheck run failed rc=%d: %s" % (r.returncode, r.stdout[-400:]))
+    return sh
